@@ -14,8 +14,8 @@ namespace jsonw {
 using Qentem::SizeT;
 using qsim::LibCall;
 
-enum JOp { J_DOC = 0, J_FAULT, J_DELIVER, J_ENUM, J_DEEP, J_COUNT };
-enum Mode { M_CLEAN = 0, M_FAULTED, M_ENUM, M_DEEP };
+enum JOp { J_DOC = 0, J_FAULT, J_DELIVER, J_ENUM, J_DEEP, J_TINY, J_COUNT };
+enum Mode { M_CLEAN = 0, M_FAULTED, M_ENUM, M_DEEP, M_TINY };
 
 struct Ctx {
     int    width{1};
@@ -242,6 +242,29 @@ struct JsonW {
                 }
             }
         }
+        // the same damage behind leading whitespace (offsets and remaining lengths differ by the padding)
+        if (!cx.failed) {
+            U32 lead;
+            size_t k = 1 + (size_t)((uint64_t)op.a[2] % 9);
+            for (size_t i = 0; i < k; i++) lead.push_back((char32_t)" \n\t\r"[((uint64_t)op.a[3] + i) % 4]);
+            U32 ld = lead + doc;
+            static const char sfx[] = "x]},:0\"e[{";
+            for (size_t i = 0; i + 1 < sizeof(sfx) && !cx.failed; i++) {
+                U32 t = ld;
+                t.push_back((char32_t)sfx[i]);
+                expect_rejected(t, "lead-ws-suffix", std::string("'") + sfx[i] + "' after " + std::to_string(k) + " leading whitespace units");
+                if (cx.failed) break;
+                U32 t2 = ld;
+                t2.push_back(' ');
+                t2.push_back((char32_t)sfx[i]);
+                expect_rejected(t2, "lead-ws-suffix", std::string("' ") + sfx[i] + "'");
+            }
+            if (!cx.failed) expect_rejected(ld + doc, "lead-ws-concat", "ws ++ D ++ D");
+            if (!cx.failed) expect_rejected(ld + U32(1, (char32_t)',') + doc, "lead-ws-concat", "ws ++ D ++ ',' ++ D");
+            // a sample of cut points of the padded text (all of them for short documents)
+            size_t step = n > 200 ? n / 100 : 1;
+            for (size_t c = 0; c < ld.size() && !cx.failed; c += step) expect_rejected(ld.substr(0, c), "lead-ws-prefix", "cut at " + std::to_string(c));
+        }
         // duplicated write / stale tail of an older longer document
         if (!cx.failed) expect_rejected(doc + doc, "concat", "D ++ D");
         if (!cx.failed && !op.s.empty()) {
@@ -273,6 +296,44 @@ struct JsonW {
         if (levels >= 512) qsim::probe("json.deep.512-levels-parsed");
     }
 
+    // very short reads: every text of 1..3 units over an alphabet of structural / numeric / keyword / encoding-mark
+    // units whose first unit is fixed by the run (the runs together cover all of them), plus 4-unit samples
+    void tiny(const Op &op) {
+        static const uint32_t alpha[] = {'{', '}', '[', ']', '"', ':', ',', '\\', '/', ' ', '\t', '\n', '\r', '0', '1', '9', '-', '+', '.', 'e', 'E',
+                                         'x', 'X', 't', 'r', 'u', 'f', 'a', 'l', 's', 'n', 'b', 'U', 'D', '8', 0x00, 0x1F, 0x7F, 0x80, 0xBB, 0xBF,
+                                         0xEF, 0xFE, 0xFF, 0xFEFF, 0xFFFE, 0xD800, 0xDC00};
+        const size_t   na    = sizeof(alpha) / sizeof(alpha[0]);
+        size_t         first = (size_t)((uint64_t)op.a[0] % na);
+        auto run = [&](const U32 &t) {
+            Node        tree;
+            bool        walk_ok;
+            std::string err;
+            U32         m = t;
+            for (auto &c : m) c &= unit_mask<C>();
+            bool undefined = parse(m, (int)((uint64_t)op.a[1] % 2), ascii("s"), tree, walk_ok, err);
+            if (!walk_ok) cx.fail("malformed-result", "json:walk", "parse returned a tree that cannot be walked: " + err);
+            qsim::obs((uint64_t)undefined + m.size() * 3);
+        };
+        U32 t;
+        t.push_back(alpha[first]);
+        run(t);
+        for (size_t b = 0; b < na && !cx.failed; b++) {
+            U32 t2 = t;
+            t2.push_back(alpha[b]);
+            run(t2);
+            for (size_t c = 0; c < na && !cx.failed; c++) {
+                U32 t3 = t2;
+                t3.push_back(alpha[c]);
+                run(t3);
+            }
+            U32 t4 = t2;
+            t4.push_back(alpha[((uint64_t)op.a[2] + b) % na]);
+            t4.push_back(alpha[((uint64_t)op.a[3] + b * 7) % na]);
+            if (!cx.failed) run(t4);
+        }
+        qsim::probe("json.tiny.first-units");
+    }
+
     void exec(const Op &op, int mode) {
         switch ((uint64_t)op.kind % J_COUNT) {
             case J_DOC:
@@ -294,6 +355,7 @@ struct JsonW {
             case J_DELIVER: deliver(op, mode); break;
             case J_ENUM: enumerate(op); break;
             case J_DEEP: deep(op); break;
+            case J_TINY: tiny(op); break;
         }
     }
 };
@@ -349,11 +411,22 @@ static void generate_mix(Plan &plan, uint64_t seed, int tier, bool enum_only) {
     if (enum_only)
         mode = M_ENUM;
     else {
-        uint64_t k = cfg.below(20);
-        mode       = k < 4 ? M_CLEAN : k < 19 ? M_FAULTED : M_DEEP;
+        uint64_t k = cfg.below(40);
+        mode       = k < 8 ? M_CLEAN : k < 36 ? M_FAULTED : k < 38 ? M_DEEP : M_TINY;
     }
     plan.cfg["mode"]    = mode;
     plan.cfg["faulted"] = mode == M_FAULTED;
+    if (mode == M_TINY) {
+        Op op;
+        op.kind = J_TINY;
+        op.a[0] = plan.get("run_index", 0) / 40 + (int64_t)cfg.below(48); // all first units come round
+        op.a[1] = (int64_t)cfg.below(2);
+        op.a[2] = (int64_t)cfg.below(48);
+        op.a[3] = (int64_t)cfg.below(48);
+        plan.cfg["stack_kb"] = 256;
+        plan.ops.push_back(op);
+        return;
+    }
     if (mode == M_DEEP) {
         Op op;
         op.kind = J_DEEP;
